@@ -63,24 +63,6 @@ Proof. unfold xid. intros H. injection H as H. apply Nat2N.inj, H. Qed.
 Lemma to_node_uuid k n : n_uuid (to_node k n) = nid k.
 Proof. unfold to_node. destruct (rn_dec n); reflexivity. Qed.
 
-Lemma ref_nth sr k n : nth_error (s_nodes sr) k = Some n -> nth_error (f_nodes (to_flow sr)) k = Some (to_node k n).
-Proof. intros H. unfold to_flow. cbn. rewrite nth_error_map, number_from_nth, H. reflexivity. Qed.
-
-Lemma ref_length sr : length (f_nodes (to_flow sr)) = length (s_nodes sr).
-Proof. unfold to_flow. cbn. rewrite map_length, number_from_length. reflexivity. Qed.
-
-Lemma ref_node_index sr k : k < length (s_nodes sr) -> node_index (to_flow sr) (nid k) = Some k.
-Proof.
-  intros Hk. unfold node_index, to_flow. cbn.
-  assert (G : forall (l : list rnode) i0 j, j < length l ->
-            find_idx (fun nd => str_eqb (n_uuid nd) (nid (i0 + j))) (map (fun kn => to_node (fst kn) (snd kn)) (number_from i0 l)) = Some j).
-  { induction l as [|a r IH]; intros i0 j Hj; cbn in *; [lia|]. rewrite to_node_uuid. destruct j as [|j].
-    - rewrite Nat.add_0_r, str_eqb_refl. reflexivity.
-    - destruct (str_eqb (nid i0) (nid (i0 + S j))) eqn:E; [apply str_eqb_eq, nid_inj in E; lia|].
-      replace (i0 + S j) with (S i0 + j) by lia. rewrite IH by lia. reflexivity. }
-  apply (G (s_nodes sr) 0 k Hk).
-Qed.
-
 (* ---------------------------------------------------------------- what a flow does at a node *)
 Lemma lts_act F i nd pc u p :
   nth_error (f_nodes F) i = Some nd -> nth_error (n_actions nd) pc = Some (u, p) -> lts_of_flow F (i, pc) = KAct p (i, S pc).
@@ -327,8 +309,52 @@ Hypothesis Hidx : Forall2 (fun i nd => nth_error (cs_nodes sc) i = Some nd) idxs
 Hypothesis Hcover : forall i, i < length (cs_nodes sc) -> In i idxs.
 Hypothesis Hnodup : NoDup (map cn_uuid nds).
 
+(* the reference flow lists its nodes in sheet order *)
+Variable ridxs : list nat.
+Hypothesis Hrorder : node_order sr = ridxs.
+Hypothesis Hrbound : forall k, In k ridxs -> k < length (s_nodes sr).
+Hypothesis Hrcover : forall k, k < length (s_nodes sr) -> In k ridxs.
+Hypothesis Hrnodup : NoDup ridxs.
+
 Let R := to_flow sr.
 Let N := length (s_nodes sr).
+
+Lemma ref_nodes : Forall2 (fun k nd => exists n, nth_error (s_nodes sr) k = Some n /\ nd = to_node k n) ridxs (f_nodes R).
+Proof.
+  unfold R, to_flow. cbn [f_nodes]. rewrite Hrorder. clear Hrorder Hrcover Hrnodup.
+  induction ridxs as [|k l IH]; cbn; [constructor|].
+  assert (Hk : k < length (s_nodes sr)) by (apply Hrbound; left; reflexivity).
+  destruct (nth_error (s_nodes sr) k) as [n|] eqn:E; [|apply nth_error_None in E; lia].
+  cbn. constructor; [exists n; auto|]. apply IH. intros k0 H0. apply Hrbound. right. exact H0.
+Qed.
+
+Lemma ref_nth q k n : nth_error ridxs q = Some k -> nth_error (s_nodes sr) k = Some n -> nth_error (f_nodes R) q = Some (to_node k n).
+Proof.
+  intros Hq Hk. destruct (Forall2_nth _ _ _ _ _ ref_nodes Hq) as (nd & Hnd & n' & Hn' & ->). rewrite Hnd. congruence.
+Qed.
+
+Lemma ref_length : length (f_nodes R) = length ridxs.
+Proof. symmetry. apply (Forall2_length' _ _ _ ref_nodes). Qed.
+
+Lemma ref_uuids_nodup : NoDup (map (n_uuid : node -> str) (f_nodes R)).
+Proof.
+  assert (G : forall l l', Forall2 (fun k nd => exists n, nth_error (s_nodes sr) k = Some n /\ nd = to_node k n) l l' ->
+                           map (n_uuid : node -> str) l' = map nid l).
+  { intros l l' H. induction H as [|k nd l l' Hk _ IH]; cbn; [reflexivity|].
+    destruct Hk as (n & _ & ->). rewrite to_node_uuid, IH. reflexivity. }
+  rewrite (G _ _ ref_nodes). generalize Hrnodup. generalize ridxs. clear. intros l H. induction H as [|x l Hx _ IH]; cbn; [constructor|]. constructor; [|exact IH].
+  intros Hin. apply in_map_iff in Hin as (y & E & Hy). apply nid_inj in E. subst y. contradiction.
+Qed.
+
+Lemma ref_node_index q k : nth_error ridxs q = Some k -> node_index R (nid k) = Some q.
+Proof.
+  intros Hq. destruct (Forall2_nth _ _ _ _ _ ref_nodes Hq) as (nd & Hnd & n & Hn & ->). unfold node_index.
+  rewrite <- (to_node_uuid k n). apply (find_idx_key n_uuid (f_nodes R) q (to_node k n)); [|exact Hnd].
+  exact ref_uuids_nodup.
+Qed.
+
+Lemma rpos_exists k : k < length (s_nodes sr) -> exists q, nth_error ridxs q = Some k.
+Proof. intros H. apply In_nth_error, Hrcover, H. Qed.
 
 Lemma pos_exists i : i < length (cs_nodes sc) -> exists p, nth_error idxs p = Some i.
 Proof. intros H. apply In_nth_error, Hcover, H. Qed.
@@ -349,12 +375,12 @@ Qed.
 
 (* states of the reference flow against states of the compiled flow *)
 Inductive Rel : state -> state -> Prop :=
-| Rel_node k n c p pc :
-    nth_error (s_nodes sr) k = Some n -> nth_error phi k = Some c -> nth_error idxs p = Some (fst c) ->
-    pc <= length (rn_actions n) -> Rel (k, pc) (p, pc)
-| Rel_router k n k1 j p :
-    nth_error (s_nodes sr) k = Some n -> nth_error phi k = Some (k1, Some j) -> nth_error idxs p = Some j ->
-    Rel (k, length (rn_actions n)) (p, 0)
+| Rel_node k n c q p pc :
+    nth_error (s_nodes sr) k = Some n -> nth_error phi k = Some c -> nth_error ridxs q = Some k -> nth_error idxs p = Some (fst c) ->
+    pc <= length (rn_actions n) -> Rel (q, pc) (p, pc)
+| Rel_router k n k1 j q p :
+    nth_error (s_nodes sr) k = Some n -> nth_error phi k = Some (k1, Some j) -> nth_error ridxs q = Some k -> nth_error idxs p = Some j ->
+    Rel (q, length (rn_actions n)) (p, 0)
 | Rel_end : Rel (end_state R) (end_state F).
 
 Lemma ref_in_range k c : nth_error phi k = Some c -> exists n, nth_error (s_nodes sr) k = Some n.
@@ -375,7 +401,8 @@ Proof.
     unfold cuu in Hu. rewrite nth_error_map in Hu. destruct (nth_error (cs_nodes sc) (fst c)) as [x|] eqn:Ex; [|discriminate]. injection Hu as <-.
     destruct (pos_exists (fst c)) as (p & Hp); [apply nth_error_Some; congruence|].
     unfold dest_state. rewrite (comp_node_index p (fst c) x Hp Ex).
-    unfold R. rewrite ref_node_index by (apply nth_error_Some; congruence).
+    destruct (rpos_exists k) as (q & Hq); [apply nth_error_Some; congruence|].
+    rewrite (ref_node_index q k Hq).
     eapply Rel_node; eauto. lia.
 Qed.
 
@@ -521,23 +548,23 @@ Qed.
 
 Lemma fwd_sim a b : Rel a b -> wsim_at sexp state state (lts_of_flow R) (lts_of_flow F) lmf Rel a b.
 Proof.
-  intros H. unfold wsim_at. destruct H as [k n c p pc Hk Hc Hp Hpc|k n k1 j p Hk Hc Hp|].
+  intros H. unfold wsim_at. destruct H as [k n c q p pc Hk Hc Hq Hp Hpc|k n k1 j q p Hk Hc Hq Hp|].
   - destruct (cluster_view k n c Hk Hc) as (nd & o & Hcl & Hns).
     assert (Hnd : nth_error (cs_nodes sc) (fst c) = Some nd).
     { unfold cluster_nodes in Hcl. destruct (nth_error (cs_nodes sc) (fst c)) as [y|]; [|discriminate].
       destruct (snd c) as [j|]; [destruct (nth_error (cs_nodes sc) j); [|discriminate]|]; injection Hcl as <- _; reflexivity. }
-    pose proof (ref_nth sr k n Hk) as Hrn. pose proof (comp_nth p (fst c) nd Hp Hnd) as Hcn.
+    pose proof (ref_nth q k n Hq Hk) as Hrn. pose proof (comp_nth p (fst c) nd Hp Hnd) as Hcn.
     assert (Hact : map snd (cn_actions nd) = rn_actions n) by (destruct Hns; assumption).
     pose proof (comp_actions_nth nd n pc Hact) as Hca.
     destruct (nth_error (rn_actions n) pc) as [pl|] eqn:Epl.
     + (* an action *)
       destruct Hca as (u & Hu).
-      rewrite (lts_act R k (to_node k n) pc [5%N; N.of_nat k; N.of_nat pc] pl Hrn) by (rewrite ref_actions_nth, Epl; reflexivity).
+      rewrite (lts_act R q (to_node k n) pc [5%N; N.of_nat k; N.of_nat pc] pl Hrn) by (rewrite ref_actions_nth, Epl; reflexivity).
       exists (p, pc), pl, (p, S pc). split; [apply taus_refl|]. split; [apply (lts_act F p _ pc u pl Hcn); rewrite render_node_actions; exact Hu|].
       split; [apply smatch_refl|]. eapply Rel_node; eauto. apply nth_error_Some. congruence.
     + (* past the actions *)
       assert (Epc : pc = length (rn_actions n)) by (apply nth_error_None in Epl; lia). subst pc.
-      rewrite (lts_tail R k (to_node k n) _ Hrn) by (rewrite ref_actions_nth, Epl; reflexivity).
+      rewrite (lts_tail R q (to_node k n) _ Hrn) by (rewrite ref_actions_nth, Epl; reflexivity).
       assert (Hct : lts_of_flow F (p, length (rn_actions n)) = match n_router (render_node nd) with
                       | None => match n_exits (render_node nd) with [e] => KTau (dest_state F (e_dest e)) | _ => KBad end
                       | Some r => KDec (router_sig r) (router_branches F (render_node nd) r) end)
@@ -577,8 +604,8 @@ Proof.
     unfold cluster_nodes in Hcl. cbn in Hcl. destruct (nth_error (cs_nodes sc) k1) as [y|] eqn:Ey; [|discriminate].
     destruct (nth_error (cs_nodes sc) j) as [nr|] eqn:Enr; [|discriminate]. injection Hcl as <- <-.
     inversion Hns as [| | |? ? e nr0 r d Hdec Hb _ Hdest Hnes Hbr Har Hds Hpl]; subst.
-    pose proof (ref_nth sr k n Hk) as Hrn. pose proof (comp_nth p j nr Hp Enr) as Hcnr.
-    rewrite (lts_tail R k (to_node k n) _ Hrn) by (rewrite ref_actions_nth; assert (E : nth_error (rn_actions n) (length (rn_actions n)) = None) by (apply nth_error_None; lia); rewrite E; reflexivity).
+    pose proof (ref_nth q k n Hq Hk) as Hrn. pose proof (comp_nth p j nr Hp Enr) as Hcnr.
+    rewrite (lts_tail R q (to_node k n) _ Hrn) by (rewrite ref_actions_nth; assert (E : nth_error (rn_actions n) (length (rn_actions n)) = None) by (apply nth_error_None; lia); rewrite E; reflexivity).
     destruct (to_node_dec k n d Hdec (ds_random _ _ _ _ Hds)) as [E1 E2]. rewrite E2.
     destruct (render_switch nr SPlain r Hbr) as [E5 E6].
     exists (p, 0), (router_sig (comp_router r)), (router_branches F (render_node nr) (comp_router r)).
@@ -591,37 +618,37 @@ Qed.
 
 Lemma bwd_sim b a : Rel a b -> wsim_at sexp state state (lts_of_flow F) (lts_of_flow R) lmb (fun b' a' => Rel a' b') b a.
 Proof.
-  intros H. unfold wsim_at. destruct H as [k n c p pc Hk Hc Hp Hpc|k n k1 j p Hk Hc Hp|].
+  intros H. unfold wsim_at. destruct H as [k n c q p pc Hk Hc Hq Hp Hpc|k n k1 j q p Hk Hc Hq Hp|].
   - destruct (cluster_view k n c Hk Hc) as (nd & o & Hcl & Hns).
     assert (Hnd : nth_error (cs_nodes sc) (fst c) = Some nd).
     { unfold cluster_nodes in Hcl. destruct (nth_error (cs_nodes sc) (fst c)) as [y|]; [|discriminate].
       destruct (snd c) as [j|]; [destruct (nth_error (cs_nodes sc) j); [|discriminate]|]; injection Hcl as <- _; reflexivity. }
-    pose proof (ref_nth sr k n Hk) as Hrn. pose proof (comp_nth p (fst c) nd Hp Hnd) as Hcn.
+    pose proof (ref_nth q k n Hq Hk) as Hrn. pose proof (comp_nth p (fst c) nd Hp Hnd) as Hcn.
     assert (Hact : map snd (cn_actions nd) = rn_actions n) by (destruct Hns; assumption).
     pose proof (comp_actions_nth nd n pc Hact) as Hca.
     destruct (nth_error (rn_actions n) pc) as [pl|] eqn:Epl.
     + destruct Hca as (u & Hu).
       rewrite (lts_act F p _ pc u pl Hcn) by (rewrite render_node_actions; exact Hu).
-      exists (k, pc), pl, (k, S pc). split; [apply taus_refl|].
-      split; [apply (lts_act R k (to_node k n) pc [5%N; N.of_nat k; N.of_nat pc] pl Hrn); rewrite ref_actions_nth, Epl; reflexivity|].
+      exists (q, pc), pl, (q, S pc). split; [apply taus_refl|].
+      split; [apply (lts_act R q (to_node k n) pc [5%N; N.of_nat k; N.of_nat pc] pl Hrn); rewrite ref_actions_nth, Epl; reflexivity|].
       split; [apply smatch_refl|]. eapply Rel_node; eauto. apply nth_error_Some. congruence.
     + assert (Epc : pc = length (rn_actions n)) by (apply nth_error_None in Epl; lia). subst pc.
       rewrite (lts_tail F p _ _ Hcn) by (rewrite render_node_actions; exact Hca).
-      assert (Hrt : lts_of_flow R (k, length (rn_actions n)) = match n_router (to_node k n) with
+      assert (Hrt : lts_of_flow R (q, length (rn_actions n)) = match n_router (to_node k n) with
                       | None => match n_exits (to_node k n) with [e] => KTau (dest_state R (e_dest e)) | _ => KBad end
                       | Some r => KDec (router_sig r) (router_branches R (to_node k n) r) end)
-        by (apply (lts_tail R k _ _ Hrn); rewrite ref_actions_nth, Epl; reflexivity).
+        by (apply (lts_tail R q _ _ Hrn); rewrite ref_actions_nth, Epl; reflexivity).
       destruct Hns as [n nd e Hdec Hb _ Hcont|n nd cls r d Hdec Hb _ Hds Hsh|n nd r d Hdec Hb _ Hrs|n nd e nr r d Hdec Hb _ Hdest Hnes Hbr Har Hds Hpl].
       * destruct (to_node_basic k n Hdec) as [E1 E2]. rewrite E1, E2 in Hrt. destruct (render_basic nd e Hb) as [E3 E4]. rewrite E3, E4.
         exists (dest_state R (dest_id (rn_cont n))). split; [eapply taus_step; [exact Hrt|apply taus_refl]|]. cbn. apply dest_rel, Hcont.
       * destruct (to_node_dec k n d Hdec (ds_random _ _ _ _ Hds)) as [E1 E2]. rewrite E2 in Hrt.
         destruct (render_switch nd cls r Hb) as [E3 E4]. rewrite E4.
-        exists (k, length (rn_actions n)), (router_sig (ref_router k d)), (router_branches R (to_node k n) (ref_router k d)).
+        exists (q, length (rn_actions n)), (router_sig (ref_router k d)), (router_branches R (to_node k n) (ref_router k d)).
         split; [apply taus_refl|]. split; [exact Hrt|]. split; [unfold lmb; apply sig_match with (phi := phi) (uu := cuu sc); exact Hds|].
         apply branches_bwd. apply (branches_rel k n nd cls d r Hdec Hb Hds). eapply (StOK_cat_xid (fst c) nd cls r); eauto.
       * destruct (to_node_rand k n d Hdec (rs_random _ _ _ _ Hrs)) as [E1 E2]. rewrite E2 in Hrt.
         destruct (render_rand nd r Hb) as [E3 E4]. rewrite E4.
-        exists (k, length (rn_actions n)), (router_sig (ref_random k d)), (router_branches R (to_node k n) (ref_random k d)).
+        exists (q, length (rn_actions n)), (router_sig (ref_random k d)), (router_branches R (to_node k n) (ref_random k d)).
         split; [apply taus_refl|]. split; [exact Hrt|]. split; [unfold lmb; apply rand_sig_match with (phi := phi) (uu := cuu sc); exact Hrs|].
         apply branches_bwd. apply (rand_branches_rel k n nd d r Hdec Hb Hrs). eapply (StOK_rand_xid (fst c) nd r); eauto.
       * destruct (render_basic nd e Hb) as [E3 E4]. rewrite E3, E4.
@@ -630,19 +657,19 @@ Proof.
         destruct (pos_exists j) as (pj & Hpj); [apply nth_error_Some; congruence|].
         assert (Hd1 : dest_state F (e_dest (render_exit e)) = (pj, 0)).
         { cbn. rewrite Hdest. cbn. rewrite (str_eqb_neq _ _ Hnes). unfold dest_state. rewrite (comp_node_index pj j nr Hpj Enr). reflexivity. }
-        exists (k, length (rn_actions n)). split; [apply taus_refl|]. rewrite Hd1.
-        eapply (Rel_router k n (fst c) j pj); eauto. rewrite Hc. destruct c as [c1 c2]. cbn in Ej. subst c2. reflexivity.
+        exists (q, length (rn_actions n)). split; [apply taus_refl|]. rewrite Hd1.
+        eapply (Rel_router k n (fst c) j q pj); eauto. rewrite Hc. destruct c as [c1 c2]. cbn in Ej. subst c2. reflexivity.
   - destruct (cluster_view k n _ Hk Hc) as (nd & o & Hcl & Hns).
     unfold cluster_nodes in Hcl. cbn in Hcl. destruct (nth_error (cs_nodes sc) k1) as [y|] eqn:Ey; [|discriminate].
     destruct (nth_error (cs_nodes sc) j) as [nr|] eqn:Enr; [|discriminate]. injection Hcl as <- <-.
     inversion Hns as [| | |? ? e nr0 r d Hdec Hb _ Hdest Hnes Hbr Har Hds Hpl]; subst.
-    pose proof (ref_nth sr k n Hk) as Hrn. pose proof (comp_nth p j nr Hp Enr) as Hcnr.
+    pose proof (ref_nth q k n Hq Hk) as Hrn. pose proof (comp_nth p j nr Hp Enr) as Hcnr.
     rewrite (lts_tail F p _ 0 Hcnr) by (rewrite render_node_actions, Har; reflexivity).
     destruct (render_switch nr SPlain r Hbr) as [E5 E6]. rewrite E6.
     destruct (to_node_dec k n d Hdec (ds_random _ _ _ _ Hds)) as [E1 E2].
-    exists (k, length (rn_actions n)), (router_sig (ref_router k d)), (router_branches R (to_node k n) (ref_router k d)).
+    exists (q, length (rn_actions n)), (router_sig (ref_router k d)), (router_branches R (to_node k n) (ref_router k d)).
     split; [apply taus_refl|]. split.
-    + rewrite (lts_tail R k (to_node k n) _ Hrn) by (rewrite ref_actions_nth; assert (E : nth_error (rn_actions n) (length (rn_actions n)) = None) by (apply nth_error_None; lia); rewrite E; reflexivity).
+    + rewrite (lts_tail R q (to_node k n) _ Hrn) by (rewrite ref_actions_nth; assert (E : nth_error (rn_actions n) (length (rn_actions n)) = None) by (apply nth_error_None; lia); rewrite E; reflexivity).
       rewrite E2. reflexivity.
     + split; [unfold lmb; apply sig_match with (phi := phi) (uu := cuu sc); exact Hds|].
       apply branches_bwd. apply (branches_rel k n nr SPlain d r Hdec Hbr Hds). eapply (StOK_cat_xid j nr SPlain r); eauto.
